@@ -89,8 +89,9 @@ class CachingLoaderMixin(ABC, _CachingLoaderProtocol):
             self.cache[cache_key] = template
             return template
 
-        if globals:
-            cached_template.global_data = globals
+        # A cached template is rendered with this caller's globals, also when this
+        # caller has none.
+        cached_template.global_data = globals or {}
         return cached_template
 
     async def _check_cache_async(
@@ -112,8 +113,9 @@ class CachingLoaderMixin(ABC, _CachingLoaderProtocol):
             self.cache[cache_key] = template
             return template
 
-        if globals:
-            cached_template.global_data = globals
+        # A cached template is rendered with this caller's globals, also when this
+        # caller has none.
+        cached_template.global_data = globals or {}
         return cached_template
 
     def load(
